@@ -49,7 +49,7 @@ def run(ctx):
                 ctx.violation("directed draw: %s (bound limbs %s)" % (why[5:], e.get("n")), dict(kind="draw", event=e))
             elif why.startswith("shape:"):
                 n = sum(x << (15 * i) for i, x in enumerate(e.get("n", [])))
-                depth = 2 if ("continuation" in why or e.get("used", 1) > 1) else 1
+                depth = min(max(e.get("used", 1), 2), 12) if ("continuation" in why or e.get("used", 1) > 1) else 1
                 deviating.setdefault(n, set()).add(depth)
                 ctx.drift("draw at bound %d: %s" % (n, why[6:]))
             else:
